@@ -232,6 +232,13 @@ impl<'a> Gen<'a> {
                         v.push(APiece::EntRef(self.r.pick_s(&["gt", "apos", "quot"]).to_string()));
                     }
                 }
+                5 if in_entity && self.cfg.refs && allow_refs && self.r.chance(1, 2) => {
+                    // a reference spelled through &#38;: recognised when the replacement text is included (4.4.2, appendix D)
+                    let own = if !self.entities.is_empty() && self.r.chance(1, 3) { Some(self.r.pick(&self.entities).clone()) } else { None };
+                    let r = match own { Some(e) => format!("{};", e), None => self.r.pick_s(&["#60;", "#38;", "#x3E;", "amp;", "lt;", "apos;", "#233;"]).to_string() };
+                    v.push(APiece::CharRef('&', self.r.chance(1, 2)));
+                    v.push(APiece::Text(r));
+                }
                 _ => v.push(APiece::Text(gen_text(self.r, &self.cfg, 1, 2).replace(['\n', '\t', '\r'], "w"))),
             }
         }
@@ -464,29 +471,46 @@ impl Entities {
     fn predefined(name: &str) -> Option<&'static str> {
         match name { "lt" => Some("<"), "gt" => Some(">"), "amp" => Some("&"), "apos" => Some("'"), "quot" => Some("\""), _ => None }
     }
-    /// value contributed by `&name;` in content (no white-space normalisation)
-    pub fn content_value(&self, name: &str) -> String {
-        if let Some(v) = self.map.get(name) {
-            let mut s = String::new();
-            for p in v { match p { APiece::Text(t) => s.push_str(&norm_eol(t)), APiece::CharRef(c, _) => s.push(*c), APiece::EntRef(n) => s.push_str(&self.content_value(n)) } }
-            s
-        } else { Self::predefined(name).unwrap_or("").to_string() }
-    }
-    /// value contributed by `&name;` inside an attribute value (3.3.3: white space of the replacement
-    /// text, including characters that came from character references in the entity literal, -> #x20)
-    pub fn attr_value(&self, name: &str) -> String {
-        if let Some(v) = self.map.get(name) {
-            let mut s = String::new();
-            for p in v {
-                match p {
-                    APiece::Text(t) => s.push_str(&ws_to_space(&norm_eol(t))),
-                    APiece::CharRef(c, _) => s.push(if matches!(*c, '\t' | '\n' | '\r') { ' ' } else { *c }),
-                    APiece::EntRef(n) => s.push_str(&self.attr_value(n)),
-                }
+    /// replacement text (4.5): character references of the literal replaced, general-entity references kept.
+    /// The renderer spells '&', '<' and '%' of a text piece as references, so they are references here too.
+    fn replacement_text(v: &[APiece]) -> String {
+        let mut s = String::new();
+        for p in v {
+            match p {
+                APiece::Text(t) => { for c in norm_eol(t).chars() { match c { '&' => s.push_str("&amp;"), '<' => s.push_str("&lt;"), c => s.push(c) } } }
+                APiece::CharRef(c, _) => s.push(*c),
+                APiece::EntRef(n) => { s.push('&'); s.push_str(n); s.push(';'); }
             }
-            s
-        } else { Self::predefined(name).unwrap_or("").to_string() }
+        }
+        s
     }
+    /// inclusion (4.4.2, 4.4.5): the replacement text is scanned for references like text of the document
+    fn include(&self, name: &str, attr: bool, depth: usize) -> String {
+        let v = match self.map.get(name) { Some(v) => v, None => return Self::predefined(name).unwrap_or("").to_string() };
+        if depth > 64 { return String::new(); }
+        let rep = Self::replacement_text(v);
+        let mut out = String::new();
+        let mut rest = rep.as_str();
+        while let Some(p) = rest.find('&') {
+            let t = &rest[..p];
+            if attr { out.push_str(&ws_to_space(t)); } else { out.push_str(t); }
+            let tail = &rest[p + 1..];
+            let end = match tail.find(';') { Some(e) => e, None => { out.push_str(&rest[p..]); rest = ""; break; } };
+            let r = &tail[..end];
+            if let Some(h) = r.strip_prefix("#x") { if let Some(c) = u32::from_str_radix(h, 16).ok().and_then(char::from_u32) { out.push(c); } }
+            else if let Some(d) = r.strip_prefix('#') { if let Some(c) = d.parse::<u32>().ok().and_then(char::from_u32) { out.push(c); } }
+            else { out.push_str(&self.include(r, attr, depth + 1)); }
+            rest = &tail[end + 1..];
+        }
+        if attr { out.push_str(&ws_to_space(rest)); } else { out.push_str(rest); }
+        out
+    }
+    /// value contributed by `&name;` in content (no white-space normalisation)
+    pub fn content_value(&self, name: &str) -> String { self.include(name, false, 0) }
+    /// value contributed by `&name;` inside an attribute value (3.3.3: white space of the replacement
+    /// text, including characters that came from character references in the entity literal, -> #x20;
+    /// a character reference met while the replacement text is included contributes its character unchanged)
+    pub fn attr_value(&self, name: &str) -> String { self.include(name, true, 0) }
     /// does the replacement text (recursively) contain a character that came from a character
     /// reference to white space? (zone where libxml2 and the literal reading of 3.3.3 may differ)
     pub fn has_ws_charref(&self, name: &str) -> bool {
